@@ -616,7 +616,7 @@ def build(case, ctx):
 
     if fam == "hdr":
         nc, vc, si, where, pos = p
-        size = SIZES[si]
+        size = SIZES[si] if si >= 0 else -si  # a negative index is an explicit length (fine sweep of the close-reason boundary)
         if where == 0:
             name, value = make_name(NAME_CLASSES[nc], size), make_value(VALUE_CLASSES[vc], 3)
         elif where == 1:
@@ -855,6 +855,10 @@ def enumerate_cases(proto, role, prefix, tier, seed):
                 continue
             out.append({"fam": "hdr", "p": [1, 0, si, 0, pos]})
             out.append({"fam": "hdr", "p": [0, 1, si, 1, pos]})
+    # the error text quotes the offending name: sweep its length byte by byte across the point where the close reason
+    # stops fitting into the closing packet (the reason must be trimmed, the closing packet must still go out)
+    for L in range(1040, 1260):
+        out.append({"fam": "hdr", "p": [1, 0, -L, 0, (0, 3)[L % 2]]})
     for v in range(17):
         out.append({"fam": "dgram", "p": [v]})
     for v in range(3):
